@@ -279,6 +279,9 @@ func (s *Service) validateAttestationData(_ context.Context,
 	if attestationData.Target.Epoch > dutyEpoch {
 		return fmt.Errorf("attestation request for slot %d returned target epoch %d greater than current epoch %d", duty.Slot(), attestationData.Target.Epoch, phase0.Epoch(uint64(duty.Slot())/s.slotsPerEpoch))
 	}
+	if attestationData.Target.Epoch < dutyEpoch {
+		return fmt.Errorf("attestation request for slot %d returned target epoch %d less than current epoch %d", duty.Slot(), attestationData.Target.Epoch, dutyEpoch)
+	}
 
 	return nil
 }
